@@ -21,8 +21,9 @@
       the index it started from — the property that repair D18 established); for generate_goal and parse_rule
       some fuel suffices for every input (structural recursion over the token tree, whose leaves are pieces
       of the input). Every parser is monotone in its fuel (`Lemmas/ParseMono.lean`), so the outcome does not
-      depend on it. The fuel bounds the DEPTH of the recursion, not the total work: that the work is not
-      exponential (defect D18) is decided by the timed deep-nesting cases of the correspondence suite.
+      depend on it. The fuel bounds the DEPTH of the recursion, not the total work; for group_tokens — where
+      defect D18 was exponential work at linear depth — the work is proved linear (`group_tokens_linear_work`:
+      at most 6·n+1 calls on n tokens); for the other stages it is decided by the timed deep-nesting cases.
     * the goal-level pipeline never panics either (`generate_goal_never_panics`, `parse_rule_never_panics`):
       `token_tree_to_goal` panics on a group without exactly one child and on a leaf that is not a subgoal;
       both are excluded by invariants carried through the four stages (`Lemmas/ParseGroup.lean`):
@@ -44,6 +45,7 @@
 import SuironVerif.Lemmas.ParseSafe
 import SuironVerif.Lemmas.ParseTerminates
 import SuironVerif.Lemmas.ParseGroup
+import SuironVerif.Lemmas.ParseCost
 namespace Suiron.C18
 open Suiron.Parse
 
@@ -225,6 +227,13 @@ theorem tokenize_terminates (s : Text) : tokenize s ≠ .oof := tokenize_ne_oof 
 /-- group_tokens returns with the fuel generate_goal gives it: a nested call stops at or behind the index it started from -/
 theorem group_tokens_terminates (tokens : List Token) : groupTokens tokens (tokens.length + 2) 0 [] ≠ .oof :=
   groupTokens_ne_oof tokens _ _ _ (by omega) (by omega)
+/-- ... and with linear work: on `n` tokens the model function stands for at most `6·n + 1` calls of
+    `group_tokens_from` (`gtCalls` counts them). This is the quantity defect D18 made exponential; the fuel of
+    the model bounds only the depth of the recursion. -/
+theorem group_tokens_linear_work (tokens : List Token) (fuel : Nat) (r : Token × Nat)
+    (h : groupTokens tokens fuel 0 [] = .ok r) : gtCalls tokens fuel 0 [] ≤ 6 * tokens.length + 1 :=
+  groupTokens_linear tokens fuel r h
+
 /-- generate_goal returns for every input -/
 theorem generate_goal_terminates (po : POps) (s : Text) : ∃ f0, ∀ f, f0 ≤ f → generateGoal po f s ≠ .oof :=
   generateGoal_terminates po s
